@@ -393,6 +393,8 @@ func doOpCI(tr trace.Tracer, sp trace.Span, id int, o op, ci *childInfo) bool {
 			_, ch = sp.TracerProvider().Tracer("other", trace.WithInstrumentationVersion("v2")).Start(ctx, "child", trace.WithSpanKind(trace.SpanKindClient))
 		case 2:
 			_, ch = tr.Start(ctx, "child", trace.WithAttributes(attribute.Int("c", id)), trace.WithLinks(trace.Link{SpanContext: linkSC}), trace.WithTimestamp(endBase))
+		case 3: // the sampler drops this child (a non-recording span): its recording parent counts it all the same
+			_, ch = tr.Start(ctx, "dropped-child")
 		default:
 			_, ch = tr.Start(ctx, "child")
 		}
@@ -487,6 +489,18 @@ func (recordOnly) ShouldSample(p sdktrace.SamplingParameters) sdktrace.SamplingR
 }
 func (recordOnly) Description() string { return "recordOnly" }
 
+// dropNamed drops every span called "dropped-child" and asks inner about the rest: a recording parent still has to
+// count the children its sampler drops.
+type dropNamed struct{ inner sdktrace.Sampler }
+
+func (d dropNamed) ShouldSample(p sdktrace.SamplingParameters) sdktrace.SamplingResult {
+	if p.Name == "dropped-child" {
+		return sdktrace.SamplingResult{Decision: sdktrace.Drop, Tracestate: trace.SpanContextFromContext(p.ParentContext).TraceState()}
+	}
+	return d.inner.ShouldSample(p)
+}
+func (d dropNamed) Description() string { return "dropNamed(" + d.inner.Description() + ")" }
+
 var envCount, spanCount atomic.Int64
 
 func newEnvLim(P int, lims [3]int) *env {
@@ -496,7 +510,7 @@ func newEnvLim(P int, lims [3]int) *env {
 		sampler = recordOnly{} // recording but not sampled: everything in the property applies all the same
 	}
 	opts := []sdktrace.TracerProviderOption{
-		sdktrace.WithSampler(sampler),
+		sdktrace.WithSampler(dropNamed{sampler}),
 		sdktrace.WithRawSpanLimits(sdktrace.SpanLimits{AttributeValueLengthLimit: -1, AttributeCountLimit: lims[0], EventCountLimit: lims[1],
 			LinkCountLimit: lims[2], AttributePerEventCountLimit: -1, AttributePerLinkCountLimit: -1}),
 	}
@@ -1137,6 +1151,52 @@ func evictStorm(w *vgen.Writer, n int) int {
 	return anomalies
 }
 
+// tracingSink: logging code that is itself instrumented with tracing: every message (outermost only) asks the
+// provider for an existing and for a new tracer and starts and ends a span.
+type tracingSink struct {
+	tp    *sdktrace.TracerProvider
+	depth *atomic.Int64
+	n     *atomic.Int64
+}
+
+func (tracingSink) Init(logr.RuntimeInfo)  {}
+func (tracingSink) Enabled(level int) bool { return true }
+func (t tracingSink) Info(level int, msg string, kv ...any) {
+	if t.depth.Add(1) == 1 {
+		_ = t.tp.Tracer("logging")
+		_, sp := t.tp.Tracer(fmt.Sprintf("logging-%d", t.n.Add(1))).Start(context.Background(), "log")
+		sp.SetAttributes(attribute.String("msg", msg))
+		sp.End()
+	}
+	t.depth.Add(-1)
+}
+func (t tracingSink) Error(err error, msg string, kv ...any) { t.Info(0, msg) }
+func (t tracingSink) WithValues(...any) logr.LogSink         { return t }
+func (t tracingSink) WithName(string) logr.LogSink           { return t }
+
+// loggerReent: with such a logger installed, requesting tracers for new scopes (the SDK logs "Tracer created"),
+// dropping attributes and shutting down must all return.
+func loggerReent(w *vgen.Writer) {
+	desc := map[string]any{"fragment": "re-entrant logger"}
+	watchdog(w, "provider calls under a logger that calls Tracer()", desc, 20*time.Second, func(w *proxy) {
+		tp := sdktrace.NewTracerProvider(sdktrace.WithRawSpanLimits(sdktrace.SpanLimits{AttributeValueLengthLimit: -1, AttributeCountLimit: 1, EventCountLimit: -1, LinkCountLimit: -1, AttributePerEventCountLimit: -1, AttributePerLinkCountLimit: -1}),
+			sdktrace.WithSpanProcessor(&attrProc{}))
+		otel.SetLogger(logr.New(tracingSink{tp: tp, depth: &atomic.Int64{}, n: &atomic.Int64{}}))
+		defer otel.SetLogger(logr.Discard())
+		for i := 0; i < 5; i++ {
+			tr := tp.Tracer(fmt.Sprintf("scope-%d", i), trace.WithInstrumentationVersion("v1")) // new scope: "Tracer created"
+			_ = tp.Tracer(fmt.Sprintf("scope-%d", i), trace.WithInstrumentationVersion("v1")) // existing scope
+			_, sp := tr.Start(context.Background(), "s")
+			sp.SetAttributes(attribute.Int("a", 1), attribute.Int("b", 2)) // "dropping attributes" under the span lock
+			sp.End()
+		}
+		_ = tp.ForceFlush(context.Background())
+		_ = tp.Shutdown(context.Background())
+		_ = tp.Tracer("after-shutdown")
+		w.Tally("logger-reent")
+	})
+}
+
 // ---- generators ----
 
 func genOp(r *vgen.Rand, endWeight int) op {
@@ -1155,7 +1215,7 @@ func genOp(r *vgen.Rand, endWeight int) op {
 	case x < 14:
 		return op{Kind: opStatus, V: r.Intn(3) / 2} // 1/3 Ok (racing fragments only, see seqSafe)
 	case x < 16:
-		return op{Kind: opChild, N: vgen.Pick(r, []int{0, 0, 1, 3, 20, 60, 200}), V: vgen.Pick(r, []int{0, 0, 1, 2})} // N: how long OnStart dawdles
+		return op{Kind: opChild, N: vgen.Pick(r, []int{0, 0, 1, 3, 20, 60, 200}), V: vgen.Pick(r, []int{0, 0, 1, 2, 3, 3})} // N: how long OnStart dawdles
 	case x < 17:
 		if r.Chance(1, 2) {
 			return op{Kind: opNoop, V: r.Intn(len(noopNames))}
@@ -1699,6 +1759,7 @@ func main() {
 		t0 := time.Now()
 		nStatus := o.Count(300000, 3000000)
 		sa := statusStorm(w, nStatus)
+		loggerReent(w)
 		nev := o.Count(100000, 1000000)
 		w.Extra["evict_storm"] = fmt.Sprintf("%d spans with full event/link queues, AddEvent/AddLink/SetAttributes racing End, retained snapshots re-read: %d anomalies", nev, evictStorm(w, nev))
 		ndr := o.Count(4000, 40000)
